@@ -455,10 +455,20 @@ func (r *Reader) traverseNodeFiltered(n *html.Node, ctx *parseContext, elements 
 				})
 				return
 			}
-			// If it's a block container (div with children), traverse children
+			// If it's a block container (div with children), traverse children.
+			// The inline content between the block-level children (text, <b>,
+			// <a>, ...) is the container's own text: each such run is a
+			// paragraph of its own, in document order.
+			var run strings.Builder
 			for c := n.FirstChild; c != nil; c = c.NextSibling {
+				if isInlineContent(c) {
+					getTextContentRecursive(c, &run)
+					continue
+				}
+				emitInlineRun(&run, ctx, elements)
 				r.traverseNodeFiltered(c, ctx, elements)
 			}
+			emitInlineRun(&run, ctx, elements)
 			return
 
 		case "ul", "ol":
@@ -698,15 +708,56 @@ func shouldSkipElement(tagName string) bool {
 // isBlockContainer returns true if the element is a block container with block-level children.
 func isBlockContainer(n *html.Node) bool {
 	for c := n.FirstChild; c != nil; c = c.NextSibling {
-		if c.Type == html.ElementNode {
-			switch c.Data {
-			case "div", "p", "ul", "ol", "table", "h1", "h2", "h3", "h4", "h5", "h6", "blockquote", "pre",
-				"article", "section", "main", "header", "footer", "nav", "aside":
-				return true
-			}
+		if c.Type == html.ElementNode && isBlockLevel(c.Data) {
+			return true
 		}
 	}
 	return false
+}
+
+// isBlockLevel returns true for the elements that make their parent a block container.
+func isBlockLevel(tagName string) bool {
+	switch tagName {
+	case "div", "p", "ul", "ol", "table", "h1", "h2", "h3", "h4", "h5", "h6", "blockquote", "pre",
+		"article", "section", "main", "header", "footer", "nav", "aside":
+		return true
+	}
+	return false
+}
+
+// isInlineContent reports whether a child of a block container belongs to the
+// container's own text: it neither is nor contains an element that
+// traverseNodeFiltered handles itself (such a child is traversed instead, so no
+// text is returned twice).
+func isInlineContent(n *html.Node) bool {
+	if n.Type == html.ElementNode {
+		if shouldSkipElement(n.Data) {
+			return true // contributes no text
+		}
+		if isBlockLevel(n.Data) || n.Data == "li" || n.Data == "code" {
+			return false
+		}
+	}
+	for c := n.FirstChild; c != nil; c = c.NextSibling {
+		if !isInlineContent(c) {
+			return false
+		}
+	}
+	return true
+}
+
+// emitInlineRun emits the inline content collected between two block-level
+// children of a block container as a paragraph, unless it is blank.
+func emitInlineRun(run *strings.Builder, ctx *parseContext, elements *[]parsedElement) {
+	text := strings.TrimSpace(run.String())
+	run.Reset()
+	if text != "" {
+		ctx.flushList(elements)
+		*elements = append(*elements, parsedElement{
+			Type: ElementParagraph,
+			Text: text,
+		})
+	}
 }
 
 // findElement finds the first element with the given tag name.
